@@ -1,5 +1,6 @@
 import AITB.Model.Proto
 import AITB.Model.Cassandra
+import AITB.Model.CassandraPrint
 import AITB.Gen.Constants
 import AITB.Gen.Dispatch
 open AITB AITB.Cassandra
@@ -192,9 +193,14 @@ def parseCmd : P String := do
   let huge : Bool := match parseModelInfo flags (splitLines text) {} [] with
     | .ok (p, _) => decide (p.S * p.A * (max p.S p.O) > 100000) || decide (p.S > 1000) || decide (p.A > 1000) || decide (p.O > 1000)
     | .error _ => false
-  let mp := if huge then .error .runtime else parse flags k text
-  if huge then pure "skip huge_sizes" else
   let isP := k == .pomdp
+  -- sizes the guards of the parser reject are decided WITHOUT running the main pass: the model's verdict is then compared as usual
+  let guardRejects : Bool := match parseModelInfo flags (splitLines text) {} [] with
+    | .ok (p, _) => (p.S == 0 || p.A == 0 || (isP && p.O == 0)) ||
+                    (flags.sizeGuard && !(extentFits p.S p.A p.S && (!isP || extentFits p.S p.A p.O)))
+    | .error _ => false
+  if huge && !guardRejects then pure "skip huge_sizes" else
+  let mp := parse flags k text
   let tagE := match ex with | .any => "any" | .rej c => "rej_" ++ c | .wf .. => "wf"
   let v : Verdict := { tag := tagE ++ (match ip with | .ok _ => " accepted" | .error _ => " rejected") }
   -- ---------- L2b: operational model vs implementation
@@ -271,7 +277,64 @@ def parseCmd : P String := do
             v.failIf (isP && i.W != specTable stmts 'O' S A O) s!"CassandraParser table_mismatch W impl={i.W} spec={specTable stmts 'O' S A O}"
   pure v.render
 
+def pDec : P Dec := do
+  let s ← P.nat; let n ← P.nat; let e ← P.nat
+  pure ⟨s == 1, n, e⟩
+
+def pPStmt : P PStmt := do
+  let tb ← P.tok
+  let a ← pSel
+  let d1 ← pSel
+  let k ← P.tok
+  let c := tb.toList.headD 'T'
+  if k == "e" then do
+    let d3 ← pSel; let v ← pDec
+    pure ⟨c, a, d1, .entry d3 v⟩
+  else if k == "ri" then do
+    let vs ← P.list pDec
+    pure ⟨c, a, d1, .rowInline vs⟩
+  else if k == "rn" then do
+    let vs ← P.list pDec
+    pure ⟨c, a, d1, .rowNext vs⟩
+  else if k == "m" then do
+    let rows ← P.list (P.list pDec)
+    pure ⟨c, a, .all, .matrix rows⟩
+  else P.fail
+
+/-- `canon kind hex S A O stmts | outcome`: a file AST rendered by the harness's canonical printer.
+    (1) the Lean printer (`printFile`, proved correct for every AST: `Props.C18n.printFile_parses`) must produce the same text;
+    (2) model vs implementation; (3) the implementation's own tables must be the meaning of the AST (`specAt`). -/
+def canonCmd : P String := do
+  let kt ← P.tok
+  let k : Kind := if kt == "pomdp" then .pomdp else .mdp
+  let hx ← P.tok
+  let S ← P.nat; let A ← P.nat; let O ← P.nat
+  let stmts ← P.list pPStmt
+  P.bar
+  let ip ← pImplParse
+  P.eof
+  match decodeText hx with
+  | none => pure "bad-op hex"
+  | some text =>
+    let isP := k == .pomdp
+    let f : PFile := ⟨k, S, A, O, stmts⟩
+    let v : Verdict := { tag := "canon" ++ (match ip with | .ok _ => " accepted" | .error _ => " rejected") }
+    let v := v.diffIf (printFile f != text) s!"renderer harness text differs from the Lean printer: {String.ofList (printFile f)}"
+    let v := diffParse isP (parse flags k text) ip v
+    let spec (c : Char) (D3 : Nat) : List XRat :=
+      let ss := f.stmtsOf c
+      (List.range S).flatMap fun d1 => (List.range A).flatMap fun a => (List.range D3).map fun d3 => roundX (specAt ss S A D3 d1 a d3)
+    match ip with
+    | .error c => pure (v.failIf true s!"CassandraParser canon_rejected {c}").render
+    | .ok i =>
+        let v := v.failIf (i.S != S || i.A != A || (isP && i.O != O) || i.disc != .fin 1) s!"CassandraParser canon_roundtrip_mismatch sizes {i.S},{i.A},{i.O} discount {i.disc}"
+        let v := v.failIf (i.T != spec 'T' S) s!"CassandraParser canon_roundtrip_mismatch T impl={i.T} spec={spec 'T' S}"
+        let v := v.failIf (i.R != spec 'R' S) s!"CassandraParser canon_roundtrip_mismatch R impl={i.R} spec={spec 'R' S}"
+        let v := v.failIf (isP && i.W != spec 'O' O) s!"CassandraParser canon_roundtrip_mismatch W impl={i.W} spec={spec 'O' O}"
+        pure v.render
+
 def handle : List String → String
+  | "canon" :: rest => (P.run canonCmd rest).getD "bad-op"
   | "parse" :: rest => (P.run parseCmd rest).getD "bad-op"
   | "reuse" :: rest => (P.run reuseCmd rest).getD "bad-op"
   | _ => "bad-op"
